@@ -859,6 +859,15 @@ func (w *world) rtnl(m rtnetlink.Message, family uint16, flags netlink.HeaderFla
 		f, _ := w.decide("rtnl.addr", ifc.n.id, ifc.spec.Name, "")
 		e.F = faultTag(f)
 		ref := w.log.Add(e)
+		// Mode "sampled": the kernel has made its list, the answer is slow to
+		// arrive (the table may change meanwhile; the caller gets the old list).
+		var sampled []AddrW
+		isSampled := f != nil && f.Mode == "sampled"
+		if isSampled {
+			w.mu.Lock()
+			sampled = append([]AddrW(nil), ifc.addrs...)
+			w.mu.Unlock()
+		}
 		w.park(f)
 		x := verifsim.Event{K: "rtnl.addr.exit", Node: ifc.n.id, If: ifc.spec.Name, Ref: ref, V: int64(m.Index)}
 		if f != nil && f.Err != "" {
@@ -870,6 +879,9 @@ func (w *world) rtnl(m rtnetlink.Message, family uint16, flags netlink.HeaderFla
 		w.mu.Lock()
 		list := mutateList(ifc.addrs, f)
 		w.mu.Unlock()
+		if isSampled {
+			list = sampled
+		}
 		if f != nil && f.Mode != "" {
 			w.fault("rtnl.addr." + f.Mode)
 		}
